@@ -70,6 +70,25 @@ func DecodeUnknownObject(data []byte, expectNextTypes ...reflect.Type) (Object, 
 	return obj, nil
 }
 
+// DecodeNestedObject decodes an object that travels packed inside the one being decoded (gzip_packed): it is one
+// level deeper than the place the outer decoder has reached, not a message of its own.
+func (d *Decoder) DecodeNestedObject(data []byte) (Object, error) {
+	inner, err := NewDecoder(bytes.NewReader(data))
+	if err != nil {
+		return nil, err
+	}
+	inner.depth = d.depth + 1
+	if inner.depth > maxNesting {
+		return nil, fmt.Errorf("values are nested deeper than %v levels", maxNesting)
+	}
+
+	obj := inner.decodeRegisteredObject()
+	if inner.err != nil {
+		return nil, errors.Wrap(inner.err, "decoding nested object")
+	}
+	return obj, nil
+}
+
 func (d *Decoder) decodeObject(o Object, ignoreCRC bool) {
 	if d.err != nil {
 		return
@@ -181,6 +200,13 @@ func (d *Decoder) decodeObject(o Object, ignoreCRC bool) {
 
 func (d *Decoder) decodeValue(value reflect.Value) {
 	if d.err != nil {
+		return
+	}
+	// every level of nesting - a field that holds an object, an element of a vector - passes here once more
+	d.depth++
+	defer func() { d.depth-- }()
+	if d.depth > maxNesting {
+		d.err = fmt.Errorf("values are nested deeper than %v levels", maxNesting)
 		return
 	}
 	if m, ok := value.Interface().(Unmarshaler); ok {
